@@ -7,8 +7,14 @@
     replace_self translate_identity attr_space_not_transparent translate_forest
     excluded_untouched attrs_outside_include_untouched interpolated_attrs_untouched
     extract_text_false_untouched default_cfg_excludes_script_style reorder_is_permutation
+    parse_format translate_tree placeholders_once_each translate_format_id
+    msg_identity_attr msg_identity_elem
+    adjacent_not_transparent backslash_not_transparent placeholder_text_raises percent_raises
+    drop_nested_unbalanced fragments_looked_up_not_extracted
 -/
 import Genshi.Lemmas.I18nTree
+import Genshi.Lemmas.I18nStarts
+import Genshi.Model.I18nExtract
 namespace Genshi.Props.C19
 open Genshi Genshi.I18n
 
@@ -91,5 +97,189 @@ theorem default_cfg_excludes_script_style (a : TAttrs) :
 
 /-- the directive list of a SUB event is only permuted by the pass (domain first, context next). -/
 theorem reorder_is_permutation (ds : List Dir) : (reorder ds).dirs.Perm ds := reorder_perm ds
+
+
+/-! ## the message format: `parse_msg`, `MessageBuffer`, `MsgDirective` -/
+
+/-- **parse_msg ∘ format**: parsing the linearisation `s0 [n₁:…] seg₁ …` of any translation
+    tree whose text segments hold no bracket and no backslash yields exactly its parts
+    `(level, text)`, in order (empty parts are kept inside placeholders and dropped at the
+    top level, as `parse_msg` does). -/
+theorem parse_format (s0 : Str) (r : XRest) (h0 : plainSeg s0 = true) (h : r.plain = true) :
+    parseMsg (s0 ++ r.fmt) = .ok (XRest.parts 0 s0 r) := parseMsg_fmt s0 r h0 h
+
+example : parseMsg ['S','e','e',' ','[','1',':','H','e','l','p',']','.'] =
+    .ok [(0, ['S','e','e',' ']), (1, ['H','e','l','p']), (0, ['.'])] := by decide +kernel
+
+/-- **MessageBuffer.translate on any translation tree**, relative to the buffered groups:
+    if every placeholder of the tree names an order whose groups are intact and "good"
+    (one group per gap between child elements), all placeholder numbers are distinct and
+    `yield_parts` accepts the segments, then the output is the tree with every placeholder
+    replaced by the START/END events filed under its number. -/
+theorem translate_tree (b : MB) (W : World) (Y : Str → List TEvent) (s0 : Str) (r : XRest)
+    (hp0 : plainSeg s0 = true) (hp : r.plain = true)
+    (hgood : r.good W b.events) (hnd : r.nums.Nodup)
+    (hseg : ∀ s ∈ s0 :: r.segs, yieldParts b.values s = .ok (Y s))
+    (htop : (∀ s ∈ s0 :: r.topSegs, s = []) ∨ Textual0 b.events) :
+    b.translate (s0 ++ r.fmt) = .ok (Y s0 ++ r.render W Y) :=
+  Genshi.I18n.translate_tree b W Y s0 r hp0 hp hgood hnd hseg htop
+
+theorem length_filterMap_isSome {α β} (f : α → Option β) : ∀ (l : List α), (∀ x ∈ l, (f x).isSome = true) →
+    (l.filterMap f).length = l.length
+  | [], _ => rfl
+  | x :: xs, h => by
+      have hx := h x (by simp)
+      cases hf : f x with
+      | none => simp [hf] at hx
+      | some y =>
+        simp only [List.filterMap_cons, hf, List.length_cons]
+        rw [length_filterMap_isSome f xs (fun z hz => h z (by simp [hz]))]
+
+/-- **placeholders_once_each.**  Let `F` be the content of a message (text, expressions
+    bound to the directive's parameters, elements; no two child elements adjacent inside an
+    element: finding C19-adjacent).  For **every** translation the catalogue may return whose
+    placeholders are distinct, name elements of `F` and keep each element's number of child
+    placeholders (this covers the identity, every permutation of sibling placeholders at any
+    level, every rewording of the text, dropping text parts and dropping whole top-level
+    placeholders), `MessageBuffer.translate` returns the translation with each placeholder
+    `[n:…]` replaced by the original element `n`: the START events of the output are the
+    original tags and attributes of the placeholders, each exactly once, in the order of the
+    translation. -/
+theorem placeholders_once_each (F : List MNode) (extra : List Str) (Y : Str → List TEvent) (s0 : Str) (r : XRest)
+    (hna : deepNoAdjM F = true) (hc : r.compat (infoM 1 F)) (hnd : r.nums.Nodup)
+    (hp0 : plainSeg s0 = true) (hp : r.plain = true)
+    (hseg : ∀ s ∈ s0 :: r.segs, yieldParts (valsM F).reverse s = .ok (Y s))
+    (htop : (∀ s ∈ s0 :: r.topSegs, s = []) ∨ hasTopText F = true) :
+    ∃ b out, mbAppendList (MB.new (namesM F ++ extra)) (flattenM F) = .ok b ∧
+      b.translate (s0 ++ r.fmt) = .ok out ∧
+      out = Y s0 ++ r.render (worldOf F) Y ∧
+      startsOf out = r.nums.filterMap (worldOf F) ∧
+      (r.nums.filterMap (worldOf F)).length = r.nums.length := by
+  obtain ⟨b, hrun, _, htr⟩ := translate_message F extra Y s0 r hna hc hnd hp0 hp hseg htop
+  have hsome := XRest.compat_isSome F r hc
+  have hvals : ∀ p ∈ (valsM F).reverse, startsOf [p.2] = [] := fun p hp' => valsM_noStart F p (by simpa using hp')
+  refine ⟨b, _, hrun, htr, rfl, ?_, length_filterMap_isSome _ _ hsome⟩
+  rw [startsOf_append, yieldParts_noStart _ hvals s0 (Y s0) (hseg s0 (by simp))]
+  exact XRest.render_starts (worldOf F) Y r
+    (fun s hs => yieldParts_noStart _ hvals s (Y s) (hseg s (by simp [hs]))) hsome
+
+/-- `a<b>x</b>c<i>d</i>` translated as `[2:d]a[1:x]c`: the two elements change places. -/
+example :
+    (do let b ← mbAppendList (MB.new [])
+          [.text ['a'], .start ⟨[], ['b']⟩ [], .text ['x'], .end_ ⟨[], ['b']⟩, .text ['c'],
+           .start ⟨[], ['i']⟩ [], .text ['d'], .end_ ⟨[], ['i']⟩]
+        b.translate ['[','2',':','d',']','a','[','1',':','x',']','c']) =
+    .ok [.start ⟨[], ['i']⟩ [], .text ['d'], .end_ ⟨[], ['i']⟩, .text ['a'],
+         .start ⟨[], ['b']⟩ [], .text ['x'], .end_ ⟨[], ['b']⟩, .text ['c']] := by decide +kernel
+
+/-- the hypotheses of `placeholders_once_each` are satisfiable by that example -/
+example :
+    deepNoAdjM [.text ['a'], .elem ⟨[], ['b']⟩ [] [.text ['x']], .text ['c'], .elem ⟨[], ['i']⟩ [] [.text ['d']]] = true ∧
+    (XRest.cons (.ph 2 ['d'] .nil) ['a'] (.cons (.ph 1 ['x'] .nil) ['c'] .nil)).compat
+      (infoM 1 [.text ['a'], .elem ⟨[], ['b']⟩ [] [.text ['x']], .text ['c'], .elem ⟨[], ['i']⟩ [] [.text ['d']]]) ∧
+    (XRest.cons (.ph 2 ['d'] .nil) ['a'] (.cons (.ph 1 ['x'] .nil) ['c'] .nil)).nums.Nodup ∧
+    (XRest.cons (.ph 2 ['d'] .nil) ['a'] (.cons (.ph 1 ['x'] .nil) ['c'] .nil)).plain = true := by
+  refine ⟨by decide +kernel, ⟨⟨⟨⟨[], ['i']⟩, [], by decide +kernel⟩, trivial⟩, ⟨⟨⟨[], ['b']⟩, [], by decide +kernel⟩, trivial⟩, trivial⟩,
+    by decide +kernel, by decide +kernel⟩
+
+/-- **translate_format_id.**  For every message content `F` with clean text (no bracket,
+    backslash or percent sign: findings C19-backslash, C19-placeholder-text, C19-percent),
+    word-like distinct parameter names and no two adjacent child elements inside an element
+    (finding C19-adjacent): the buffer of `F`, asked to translate its own `format()`,
+    reproduces the events of `F` without the white space at the two edges of the message,
+    adjacent text merged. -/
+theorem translate_format_id (F : List MNode) (extra : List Str)
+    (hc : cleanM F = true) (hna : deepNoAdjM F = true) (hnd : (namesM F).Nodup) :
+    ∃ b, mbAppendList (MB.new (namesM F ++ extra)) (flattenM F) = .ok b ∧
+      b.translate b.format = .ok (coalesce (flattenM (trimF F))) :=
+  translate_format_self F extra hc hna hnd
+
+/-- **identity_transparent, message directive in attribute form** (`<p i18n:msg="…">`):
+    under the identity catalogue `MsgDirective.__call__` returns its element with the content
+    unchanged up to the white space at the edges of the message (and the chunking of text). -/
+theorem msg_identity_attr (t : QName) (a : TAttrs) (F : List MNode) (extra : List Str)
+    (hc : cleanM F = true) (hna : deepNoAdjM F = true) (hnd : (namesM F).Nodup) :
+    msgGenerate (namesM F ++ extra) (fun s => s) (.start t a :: (flattenM F ++ [.end_ t])) =
+      .ok (.start t a :: (coalesce (flattenM (trimF F)) ++ [.end_ t])) :=
+  msgGenerate_identity_attr t a F extra hc hna hnd
+
+/-- **identity_transparent, message directive in element form** (`<i18n:msg params="…">`),
+    the content neither starting nor ending with an element (finding C19-msg-element-first-child). -/
+theorem msg_identity_elem (n : MNode) (mid : List MNode) (l : MNode) (extra : List Str)
+    (hn : n.isElem = false) (hl : l.isElem = false)
+    (hc : cleanM (n :: (mid ++ [l])) = true) (hna : deepNoAdjM (n :: (mid ++ [l])) = true)
+    (hnd : (namesM (n :: (mid ++ [l]))).Nodup) :
+    msgGenerate (namesM (n :: (mid ++ [l])) ++ extra) (fun s => s) (flattenM (n :: (mid ++ [l]))) =
+      .ok (coalesce (flattenM (trimF (n :: (mid ++ [l]))))) :=
+  msgGenerate_identity_elem n mid l extra hn hl hc hna hnd
+
+/-- `<p i18n:msg="n"> Hi, <b>${n}</b>! </p>`: the hypotheses hold, the edges are trimmed -/
+example :
+    cleanM [.text [' ','H','i',',',' '], .elem ⟨[], ['b']⟩ [] [.expr ['n'] 0 []], .text ['!',' ']] = true ∧
+    deepNoAdjM [.text [' ','H','i',',',' '], .elem ⟨[], ['b']⟩ [] [.expr ['n'] 0 []], .text ['!',' ']] = true ∧
+    (namesM [.text [' ','H','i',',',' '], .elem ⟨[], ['b']⟩ [] [.expr ['n'] 0 []], .text ['!',' ']]).Nodup ∧
+    coalesce (flattenM (trimF [.text [' ','H','i',',',' '], .elem ⟨[], ['b']⟩ [] [.expr ['n'] 0 []], .text ['!',' ']])) =
+      [.text ['H','i',',',' '], .start ⟨[], ['b']⟩ [], .expr 0 [], .end_ ⟨[], ['b']⟩, .text ['!']] := by
+  refine ⟨by decide +kernel, by decide +kernel, by decide +kernel, by decide +kernel⟩
+
+/-! ## witnesses: the excluded inputs are real (known findings) -/
+
+/-- C19-adjacent: two adjacent child elements inside an element — the parent's end tag comes
+    out early, so `msg_identity_attr` fails without `deepNoAdjM`. -/
+theorem adjacent_not_transparent :
+    deepNoAdjM [.text ['a',' '], .elem ⟨[], ['i']⟩ [] [.elem ⟨[], ['b']⟩ [] [.text ['x']], .elem ⟨[], ['e','m']⟩ [] [.text ['y']], .text ['z']]] = false ∧
+    msgGenerate [] (fun s => s) (.start ⟨[], ['p']⟩ [] :: (flattenM
+      [.text ['a',' '], .elem ⟨[], ['i']⟩ [] [.elem ⟨[], ['b']⟩ [] [.text ['x']], .elem ⟨[], ['e','m']⟩ [] [.text ['y']], .text ['z']]]
+        ++ [.end_ ⟨[], ['p']⟩])) =
+      .ok [.start ⟨[], ['p']⟩ [], .text ['a',' '], .start ⟨[], ['i']⟩ [], .start ⟨[], ['b']⟩ [], .text ['x'],
+           .end_ ⟨[], ['b']⟩, .end_ ⟨[], ['i']⟩, .start ⟨[], ['e','m']⟩ [], .text ['y'], .end_ ⟨[], ['e','m']⟩,
+           .text ['z'], .end_ ⟨[], ['p']⟩] := by
+  refine ⟨by decide +kernel, by decide +kernel⟩
+
+/-- C19-backslash: `a<b>x\</b>c` comes back as `a<b>x]c</b>`. -/
+theorem backslash_not_transparent :
+    msgGenerate [] (fun s => s)
+      [.start ⟨[], ['p']⟩ [], .text ['a'], .start ⟨[], ['b']⟩ [], .text ['x', '\\'], .end_ ⟨[], ['b']⟩, .text ['c'],
+       .end_ ⟨[], ['p']⟩] =
+    .ok [.start ⟨[], ['p']⟩ [], .text ['a'], .start ⟨[], ['b']⟩ [], .text ['x', ']', 'c'], .end_ ⟨[], ['b']⟩,
+         .end_ ⟨[], ['p']⟩] := by decide +kernel
+
+/-- C19-placeholder-text: literal `[1:` in the text of a message raises KeyError. -/
+theorem placeholder_text_raises :
+    msgGenerate [] (fun s => s)
+      [.start ⟨[], ['p']⟩ [], .text ['s','e','e',' ','[','1',':','x',']',' ','a'], .end_ ⟨[], ['p']⟩] =
+    .error .keyError := by decide +kernel
+
+/-- C19-percent: literal `%(n)s` in the text of a message raises KeyError. -/
+theorem percent_raises :
+    msgGenerate [] (fun s => s)
+      [.start ⟨[], ['p']⟩ [], .text ['1','0','0','%','(','n',')','s'], .end_ ⟨[], ['p']⟩] =
+    .error .keyError := by decide +kernel
+
+/-- C19-drop-nested: a translation that omits a nested placeholder (`a[1:xz]c` for
+    `a[1:x[2:y]z]c`) leaves `<b>` without its end tag — the compatibility hypothesis of
+    `placeholders_once_each` (same number of child placeholders) cannot be dropped. -/
+theorem drop_nested_unbalanced :
+    (do let b ← mbAppendList (MB.new [])
+          [.text ['a'], .start ⟨[], ['b']⟩ [], .text ['x'], .start ⟨[], ['i']⟩ [], .text ['y'], .end_ ⟨[], ['i']⟩,
+           .text ['z'], .end_ ⟨[], ['b']⟩, .text ['c']]
+        b.translate ['a','[','1',':','x','z',']','c']) =
+    .ok [.text ['a'], .start ⟨[], ['b']⟩ [], .text ['x','z'], .text ['c']] := by decide +kernel
+
+/-- C19-fragments: the text inside `i18n:singular` / `i18n:plural` is looked up fragment by
+    fragment by the translation pass, and extraction reports none of these ids. -/
+theorem fragments_looked_up_not_extracted :
+    (lookups Cfg.default [] true true [.sub [.choose [['n']]] [.start ⟨[], ['d']⟩ [],
+      .sub [.singular] [.start ⟨[], ['p']⟩ [], .text ['O','n','e',' '], .expr 0 [], .text [' ','t','h','i','n','g'], .end_ ⟨[], ['p']⟩],
+      .sub [.plural] [.start ⟨[], ['p']⟩ [], .text ['M','a','n','y',' '], .expr 0 [], .text [' ','t','h','i','n','g','s'], .end_ ⟨[], ['p']⟩],
+      .end_ ⟨[], ['d']⟩]]).map Lookup.msgid =
+      [['O','n','e'], ['t','h','i','n','g'], ['M','a','n','y'], ['t','h','i','n','g','s']] ∧
+    extract Cfg.default [.sub [.choose [['n']]] [.start ⟨[], ['d']⟩ [],
+      .sub [.singular] [.start ⟨[], ['p']⟩ [], .text ['O','n','e',' '], .expr 0 [], .text [' ','t','h','i','n','g'], .end_ ⟨[], ['p']⟩],
+      .sub [.plural] [.start ⟨[], ['p']⟩ [], .text ['M','a','n','y',' '], .expr 0 [], .text [' ','t','h','i','n','g','s'], .end_ ⟨[], ['p']⟩],
+      .end_ ⟨[], ['d']⟩]] = .ok [⟨some ngettextName,
+      .many [some ['O','n','e',' ','%','(','n',')','s',' ','t','h','i','n','g'],
+             some ['M','a','n','y',' ','%','(','n',')','s',' ','t','h','i','n','g','s']], []⟩] := by
+  refine ⟨by decide +kernel, by decide +kernel⟩
 
 end Genshi.Props.C19
